@@ -99,8 +99,9 @@ $(B)/xtpcopy/parallelxjobcalc.o: $(B)/xtpcopy/parallelxjobcalc.cc | $(GEN)/.stam
 XTP_OBJ := $(B)/repo/xtp/src/libxtp/progressobserver.o $(B)/repo/xtp/src/libxtp/job.o $(B)/xtpcopy/parallelxjobcalc.o
 
 # ---- engines ---------------------------------------------------------------
-C05W := $(call wrapflags,$(WRAP_PTHREAD))
-C10W := $(call wrapflags,$(WRAP_PTHREAD) $(WRAP_PROC))
+# pthread_* are defined by the harness itself (sim/core/wrap_pthread.cc), no --wrap needed for them
+C05W :=
+C10W := $(call wrapflags,$(WRAP_PROC))
 
 $(B)/bin/c05_lib: $(B)/sim/c05/c05_lib.o $(B)/sim/c05/c05_common.o $(CORE_OBJ) $(B)/libvotca.a
 	@mkdir -p $(dir $@)
